@@ -5,7 +5,12 @@ import ast
 import os
 
 from . import pyextract as px
-from .vlib import COQ, Check, cps, uncps
+import functools
+
+from .vlib import COQ, Check, uncps
+from .vlib import cps as _cps_uncached
+
+cps = functools.lru_cache(maxsize=200000)(_cps_uncached)
 
 PID = "C20"
 CLAIM = dict(
@@ -28,6 +33,7 @@ CLAIM = dict(
 
 # ====================================================================== translator (T1 + T2)
 
+MODULE_INTS: dict[str, int] = {}   # module-level NAME = <non-negative int literal> of debug/__init__.py (filled by _gen)
 _ALIAS: dict[str, str] = {}   # local name in the source -> the name the tables use (renamed locals are harmless)
 
 
@@ -66,6 +72,8 @@ class Fn:
             return self.ints[t]
         if isinstance(e, ast.Name) and e.id in env.get("ints", {}):
             return env["ints"][e.id]
+        if isinstance(e, ast.Name) and e.id in MODULE_INTS:
+            return str(MODULE_INTS[e.id])     # a module-level integer constant stands for its value
         if isinstance(e, ast.BinOp) and isinstance(e.op, ast.Add):
             return f"({self.intexpr(e.left, env)} + {self.intexpr(e.right, env)})"
         if (isinstance(e, ast.Call) and isinstance(e.func, ast.Name) and e.func.id in ("min", "max")
@@ -915,12 +923,34 @@ def _indent(term: str, n: int = 2) -> str:
 VALUE_MODULUS = {"B": 2 ** 8, "H": 2 ** 16, "I": 2 ** 32, "L": 2 ** 64, "Q": 2 ** 64}
 
 
-def gen() -> None:
+def gen() -> dict:
+    """regenerate coq/C20/Gen.v.  When the translator stops (Unsupported) the file is replaced by one that fails to
+    compile with the translator's message, so that no theorem can be discharged against a stale Gen.v."""
+    try:
+        return _gen()
+    except px.Unsupported as e:
+        msg = " ".join(str(e).replace('"', "'").split())
+        text = ("(* GENERATED by tools/c20.py: the translator stopped (Unsupported).  This file fails to compile on purpose;\n"
+                "   the next run on a source the translator accepts rewrites it. *)\n"
+                f'Ltac c20_translator_stopped := fail 0 "tools/c20.py could not translate the source:" "{msg}".\n'
+                "Goal True. c20_translator_stopped. Abort.\n")
+        px.write_if_changed(os.path.join(COQ, "C20", "Gen.v"), text)
+        raise
+
+
+def _gen() -> dict:
     """T1 + T2: regenerate coq/C20/Gen.v from debug/__init__.py and sansio/utils.py."""
     _ALIAS.clear()
     dbg = px.load("debug/__init__.py")
     utils = px.load("sansio/utils.py")
     cls = px.find_class(dbg, "DebuggedApplication")
+    MODULE_INTS.clear()
+    for node in dbg.body:
+        if (isinstance(node, ast.Assign) and len(node.targets) == 1 and isinstance(node.targets[0], ast.Name)
+                and isinstance(node.value, ast.Constant) and type(node.value.value) is int and node.value.value >= 0):
+            if node.targets[0].id in MODULE_INTS:
+                raise px.Unsupported(f"module constant {node.targets[0].id} assigned twice")
+            MODULE_INTS[node.targets[0].id] = node.value.value
     out = ["(* GENERATED by tools/c20.py from debug/__init__.py, sansio/utils.py on every run - do not edit *)",
            "From Coq Require Import ZArith.", "From Wz Require Import lib.Bytes C20.Types C20.Str.", "Open Scope N_scope.", ""]
 
@@ -957,6 +987,54 @@ def gen() -> None:
         raise px.Unsupported("hash_pin is no longer sha1(f'{pin} added salt')[:12]")
     out.append("(* hash_pin = first 12 hex digits of sha1(pin + ' added salt'): an input of the model (c_pin_hash) *)")
     out.append("Definition hash_pin_hex_digits : N := 12.")
+    out.append(f"Definition hash_pin_salt : list N := {px.coq_string_codes(' added salt')}.")
+
+    # ---- the configuration flags of __init__: every one is an atom (a dimension of the sweeps) or fixed
+    want_params = ["self", "app", "evalex", "request_key", "console_path", "console_init_func", "show_hidden_frames",
+                   "pin_security", "pin_logging"]
+    got_params = [a.arg for a in init.args.args]
+    if got_params != want_params or init.args.kwonlyargs or init.args.vararg or init.args.kwarg:
+        raise px.Unsupported(f"DebuggedApplication.__init__ parameters are {got_params}: a configuration flag the sweep does not know")
+    init_stmts = {norm(x) for x in ast.walk(init) if isinstance(x, (ast.Assign, ast.AnnAssign))}
+    for need in ("self.evalex = evalex", "self.console_path = console_path", "self.pin_logging = pin_logging",
+                 "self.request_key = request_key", "self.show_hidden_frames = show_hidden_frames",
+                 "self.console_init_func = console_init_func"):
+        if need not in init_stmts:
+            raise px.Unsupported(f"__init__ no longer contains `{need}`")
+    pin_if = [x for x in ast.walk(init) if isinstance(x, ast.If) and norm(x.test) == "pin_security"]
+    if len(pin_if) != 1 or [norm(x) for x in pin_if[0].orelse] != ["self.pin = None"]:
+        raise px.Unsupported("__init__: pin_security=False no longer just sets self.pin = None")
+    reads: dict = {"request_key": set(), "show_hidden_frames": set(), "console_init_func": set()}
+    stores, frame_assigns, frame_calls = [], [], []
+    for m in cls.body:
+        if not isinstance(m, ast.FunctionDef):
+            continue
+        for n in ast.walk(m):
+            if isinstance(n, ast.Attribute) and isinstance(n.ctx, ast.Load) and norm(n.value) == "self" and n.attr in reads:
+                reads[n.attr].add(m.name)
+            if isinstance(n, (ast.Assign, ast.AnnAssign, ast.AugAssign)):
+                tgts = n.targets if isinstance(n, ast.Assign) else [n.target]
+                for tg in tgts:
+                    if isinstance(tg, ast.Subscript) and norm(tg.value) == "self.frames":
+                        stores.append((m.name, norm(n)))
+                    if norm(tg) == "self.frames":
+                        frame_assigns.append((m.name, norm(n.value) if n.value is not None else None))
+            if (isinstance(n, ast.Call) and isinstance(n.func, ast.Attribute) and norm(n.func.value) == "self.frames"
+                    and n.func.attr != "get"):
+                frame_calls.append((m.name, norm(n)))
+    if reads["request_key"]:
+        raise px.Unsupported(f"request_key is now read in {sorted(reads['request_key'])}")
+    if reads["show_hidden_frames"] - {"debug_application"}:
+        raise px.Unsupported(f"show_hidden_frames is read in {sorted(reads['show_hidden_frames'])}")
+    if reads["console_init_func"] - {"display_console"}:
+        raise px.Unsupported(f"console_init_func is read in {sorted(reads['console_init_func'])}")
+    # the frames table: created empty, and only two stores - id(frame) keys from a traceback, key 0 for the console
+    if sorted(stores) != [("debug_application", "self.frames[id(frame)] = frame"), ("display_console", "self.frames[0] = _ConsoleFrame(ns)")]:
+        raise px.Unsupported(f"stores into self.frames are {stores}; the model knows frames[id(frame)] (traceback) and frames[0] (console)")
+    if frame_assigns != [("__init__", "{}")] or frame_calls:
+        raise px.Unsupported(f"self.frames is rebound or mutated through a method: {frame_assigns} {frame_calls}")
+    out.append("(* stores into self.frames: frames[id(frame)] = frame in debug_application, frames[0] = _ConsoleFrame(ns) in display_console *)")
+    out.append("Definition frame_store_sites : N := 2.")
 
     # check_host_trust: one pinned return
     cht = [s for s in _method(cls, "check_host_trust").body if not (isinstance(s, ast.Expr) and isinstance(s.value, ast.Constant))]
@@ -1047,6 +1125,7 @@ def spec_strip_port(h: str) -> str:
     return h.split(":", 1)[0]
 
 
+@functools.lru_cache(maxsize=200000)
 def spec_idna(s: str):
     try:
         return s.encode("idna").decode("ascii")
@@ -1251,16 +1330,23 @@ HIST_TRUSTED = [".localhost", "127.0.0.1", "[::1]"]
 class Rig:
     """one real DebuggedApplication with a spy frame, a fake clock and a log recorder."""
 
-    def __init__(self, wd, evalex: bool, pin_on: bool, trusted=None):
+    def __init__(self, wd, evalex: bool, pin_on: bool, trusted=None, console_path="/console", pin_logging=True,
+                 pin_security=None, **kw):
+        """pin_on False with pin_security True: the PIN is switched off through WERKZEUG_DEBUG_PIN=off (the caller keeps the
+        variable set while this rig is in use)."""
         from werkzeug.test import create_environ
         self.wd = wd
         self.inner_calls = 0
+        self.console_path = console_path
+        self.pin_logging = pin_logging
+        self._tbl: dict = {}
 
         def inner(environ, start_response):
             self.inner_calls += 1
             start_response("200 OK", [("Content-Type", "text/plain")])
             return [b"INNER-APP"]
-        self.app = wd.DebuggedApplication(inner, evalex=evalex, pin_security=pin_on)
+        self.app = wd.DebuggedApplication(inner, evalex=evalex, pin_security=pin_on if pin_security is None else pin_security,
+                                          console_path=console_path, pin_logging=pin_logging, **kw)
         self.default_trusted = list(self.app.trusted_hosts)
         self.pin_on = pin_on
         if pin_on:
@@ -1298,7 +1384,9 @@ class Rig:
             e.pop("HTTP_HOST", None)
         else:
             e["HTTP_HOST"] = host
-        if cookie is not None:
+        if isinstance(cookie, tuple):      # ("raw", header text)
+            e["HTTP_COOKIE"] = cookie[1]
+        elif cookie is not None:
             e["HTTP_COOKIE"] = f"{self.cookie_name}={cookie}"
         self.spy.calls.clear()
         self.logs.clear()
@@ -1352,11 +1440,14 @@ class Rig:
 
     def model_line(self, args, path, host, cookie, count, evalex) -> str:
         frames = ",".join(str(k) for k in (self.frames_before if self.frames_before is not None else [FID])) or "_"
-        cfg = (f"{int(evalex)} {cps('/console')} {cps(self.app.secret)} {frames} "
-               f"{cps(PIN) if self.pin_on else '~'} {cps(self.hash)} 1 {olist(self.app.trusted_hosts)}")
+        cfg = (f"{int(evalex)} {ostr(self.console_path)} {cps(self.app.secret)} {frames} "
+               f"{cps(PIN) if self.pin_on else '~'} {cps(self.hash)} {int(self.pin_logging)} {olist(self.app.trusted_hosts)}")
         a = "|".join(f"{cps(k)}={cps(v)}" for k, v in args) if args else "_"
-        return (f"run {cfg} {a} {cps(path)} {ostr(host)} {ostr(cookie)} {NOW} {count} "
-                f"{idna_table(idna_keys(host, self.app.trusted_hosts))}")
+        tkey = (host, tuple(self.app.trusted_hosts))
+        tbl = self._tbl.get(tkey)
+        if tbl is None:
+            tbl = self._tbl[tkey] = idna_table(idna_keys(host, self.app.trusted_hosts))
+        return f"run {cfg} {a} {cps(path)} {ostr(host)} {ostr(cookie)} {NOW} {count} {tbl}"
 
 
 COOKIES = {
@@ -1701,6 +1792,96 @@ def run(chk: Check, consts: dict | None) -> None:
             for host in PRODUCT_HOSTS:
                 for ck in ["valid", "absent"]:
                     one(dflt, "default", label, list(base_args) + [("frm", str(FID)), ("s", dflt.app.secret)], path, host, ck)
+        # every configuration flag of __init__: evalex x PIN (on / pin_security=False / WERKZEUG_DEBUG_PIN=off) x pin_logging x
+        # console_path (default / None / another path); show_hidden_frames, console_init_func and request_key (fixed in the model:
+        # no gate reads them) alternate over the rigs
+        n_cfg = 0
+        old_env = os.environ.get("WERKZEUG_DEBUG_PIN")
+        try:
+            idx = 0
+            for evalex in (True, False):
+                for pin_mode in ("on", "off", "env-off"):
+                    for plog in (True, False):
+                        for cpath in ("/console", None, "/c2"):
+                            idx += 1
+                            extra = {}
+                            if idx % 2:
+                                extra["show_hidden_frames"] = True
+                            if idx % 3 == 0:
+                                extra["console_init_func"] = lambda: {"marker": 1}
+                            if idx % 5 == 0:
+                                extra["request_key"] = "other.key"
+                            if pin_mode == "env-off":
+                                os.environ["WERKZEUG_DEBUG_PIN"] = "off"
+                            elif old_env is None:
+                                os.environ.pop("WERKZEUG_DEBUG_PIN", None)
+                            rig = Rig(wd, evalex, pin_mode == "on", HIST_TRUSTED, console_path=cpath, pin_logging=plog,
+                                      pin_security=(pin_mode != "off"), **extra)
+                            rigs[("cfg", idx)] = rig
+                            if pin_mode == "env-off" and rig.app.pin is not None:
+                                chk.broken("correspondence", "WERKZEUG_DEBUG_PIN=off", "the PIN is not None")
+                            cmds = commands(rig.app.secret) + [("console-other-path", [], "/c2"),
+                                                               ("eval-other-path", [("__debugger__", "yes"), ("cmd", "1+1")], "/c2")]
+                            for label, base_args, path in cmds:
+                                if pin_mode == "env-off" and label.startswith("pinauth"):
+                                    continue   # pin_cookie_name is None there: set_cookie(None, ...) fails after the gates (observation)
+                                for sec in (rig.app.secret, "wrongsecret0000000000"):
+                                    for host in ("localhost", "evil.com", None):
+                                        for ck in ("valid", "wrong-hash", "absent"):
+                                            one(rig, (evalex, pin_mode == "on"), label, list(base_args) + [("frm", str(FID)), ("s", sec)], path, host, ck)
+                                            n_cfg += 1
+                            del rigs[("cfg", idx)]
+        finally:
+            if old_env is None:
+                os.environ.pop("WERKZEUG_DEBUG_PIN", None)
+            else:
+                os.environ["WERKZEUG_DEBUG_PIN"] = old_env
+        chk.count("configuration sweep cases (36 configurations)", n_cfg)
+
+        # Cookie headers as they arrive (several cookies of the name, quoting, several bars): the value the model gets is
+        # what werkzeug's own parse_cookie returns for the name (C13's domain)
+        import werkzeug.http as whttp
+        rig = rigs[(True, True)]
+        v_ok, v_stale = COOKIES["valid"](rig.hash, T), COOKIES["wrong-hash"](rig.hash, T)
+        nm = rig.cookie_name
+        raw_cases = [(f"x=1; {nm}={v_ok}; {nm}={v_stale}", True), (f"{nm}={v_stale}; {nm}={v_ok}", False), (f'{nm}="{v_ok}"', True),
+                     (f"{nm}={v_ok}|x", False), (f"{nm}=", False), (f"y=2;{nm}={v_ok} ;z", True), (f"{nm}x={v_ok}", False),
+                     (f"{nm}={v_ok[:-1]}", False), (f"{nm}= {v_ok}", True), (f"{nm}={NOW - T}|{rig.hash}", False)]
+        for header, want_trust in raw_cases:
+            val = whttp.parse_cookie(header).get(nm)
+            for label, args in (("eval", [("__debugger__", "yes"), ("cmd", "1+1"), ("frm", str(FID)), ("s", rig.app.secret)]),
+                                ("pinauth-wrong", [("__debugger__", "yes"), ("cmd", "pinauth"), ("pin", "0"), ("s", rig.app.secret)])):
+                rig.reset(3)
+                obs, c1, ms, det = with_timeout(rig.request, 10, args, "/", "localhost", ("raw", header))
+                inp = {"kind": "cookie-header", "header": header.replace(rig.hash, "<hash_pin(pin)>"), "command": label, "observed": obs}
+                if label == "eval" and (obs == "eval") != want_trust:
+                    chk.fail("pin-cookie:" + ("refused" if want_trust else "trusted"), f"Cookie header gives {obs}, PIN trust expected {want_trust}", inp)
+                if label == "pinauth-wrong" and obs.startswith("pin:1") != want_trust:
+                    chk.fail("pin-cookie:" + ("refused" if want_trust else "trusted"), f"pinauth with this Cookie header gives {obs}", inp)
+                add(rig.model_line(args, "/", "localhost", val, 3, True),
+                    f"{obs} c={c1} s={'-' if ms is None else ms} f0={int(det['frame0'])}", "cookie-header")
+                chk.case(("cookie-header", header.replace(rig.hash, "H"), label), nontrivial=True)
+        chk.count("raw Cookie header cases", 2 * len(raw_cases))
+
+        # real tracebacks: the keys debug_application stores in frames are id(frame), never 0 (the model takes them as positive)
+        import io as _io
+
+        def boom(environ, start_response):
+            local_marker = 1
+            raise RuntimeError(f"boom {local_marker}")
+        tb_app = wd.DebuggedApplication(boom, evalex=True, pin_security=False)
+        for _ in range(3):
+            env = create_environ("/", "http://localhost/")
+            env["wsgi.errors"] = _io.StringIO()
+            try:
+                b"".join(tb_app(env, lambda *a, **k: None))
+            except Exception as e:  # noqa: BLE001
+                chk.broken("correspondence", "traceback rendering", f"{type(e).__name__}: {e}")
+        keys = list(tb_app.frames)
+        if not keys or 0 in keys or any(k != id(v) or not isinstance(k, int) or k <= 0 for k, v in tb_app.frames.items()):
+            chk.fail("frame-ids", "a traceback stored a frame under a key that is not id(frame) > 0", {"kind": "frames", "keys": keys[:10]})
+        chk.count("traceback frames registered", len(keys))
+
         # console frame (frames[0]) across requests: every sequence up to length 4 over
         # {console page trusted / untrusted, eval in frame 0 trusted / untrusted, eval in the spy frame};
         # the frames table is carried by the live app and handed to the model step by step
@@ -1916,8 +2097,10 @@ def main(chk: Check) -> None:
         consts = gen()
     except px.Unsupported as e:
         chk.broken("translator", "C20/Gen.v", str(e))
+        chk.notes.append("the translator stopped: Gen.v was replaced by a file that does not compile, no theorem is counted as discharged; "
+                         "the differential comparison below uses the model extracted on the last run the translator accepted")
     chk.forbidden_scan()
-    built = chk.coq_make(["C20/Proofs.vo", "C20/Extract.vo"])
+    built = chk.coq_make(["C20/Proofs.vo", "C20/CookieHeader.vo", "C20/Extract.vo"])
     for _ in range(3):
         # another builder's scratch .v file that vanished between mkproject.sh and make ("No rule to make
         # target 'Cxx/...'") is not a C20 obligation: try again (mkproject.sh regenerates the project)
@@ -1926,7 +2109,7 @@ def main(chk: Check) -> None:
         import time as _t
         chk.breaks.pop()
         _t.sleep(3)
-        built = chk.coq_make(["C20/Proofs.vo", "C20/Extract.vo"])
+        built = chk.coq_make(["C20/Proofs.vo", "C20/CookieHeader.vo", "C20/Extract.vo"])
     if built:
         chk.audit_props("C20/Props.v")
     else:
@@ -1944,6 +2127,9 @@ def main(chk: Check) -> None:
         "regenerated _strip_port / host_is_trusted / get_host / Request.host / wsgi.get_host are written, and the model of int() on ASCII "
         "text: hand-written, compared differentially; the for loop of host_is_trusted becomes a Fixpoint, try/except around the IDNA step "
         "a match on the codec result (a handler for a subclass of UnicodeError does not catch)",
+        "time.sleep (blocking) is outside the model; its argument is a model output compared on every request. Frame ids stored by a "
+        "traceback are id(frame) of live objects and are taken as positive numbers (checked on real tracebacks; the two store sites into "
+        "self.frames are pinned). C13's model of http.parse_cookie is composed in coq/C20/CookieHeader.v",
         "hash_pin (sha1) and parse_cookie are inputs of the model (expected hash and cookie value are passed in); time.time / time.sleep "
         "and _log are replaced by recorders in the harness",
         "atoms of the abstract request are computed by the model from the concrete query arguments, path, Host and cookie (Model.abstract), "
@@ -1955,7 +2141,9 @@ def main(chk: Check) -> None:
                     "Request.host; debugger: exhaustive product command(14) x secret(3) x frame x Host x cookie x evalex x PIN on/off "
                     "against a real DebuggedApplication with a spy frame; PIN histories over {right, wrong, stale}: all up to length 9 "
                     "(quick: from scratch to 6, depth-first to 9), boundary histories (10, 11, 255, 256, 257, 511, 512 failures), random "
-                    "10..14 and ~280. A case is non-trivial when it does not simply reach the wrapped application; distinct by hash.")
+                    "10..14 and ~280; 36 configurations (evalex x PIN on / pin_security=False / WERKZEUG_DEBUG_PIN=off x pin_logging x "
+                    "console_path) x commands x secret x Host x cookie; console-frame sequences to length 4; raw Cookie headers; real "
+                    "tracebacks (frame ids). A case is non-trivial when it does not simply reach the wrapped application; distinct by hash.")
 
 
 def replay(rep: dict) -> int:
